@@ -71,7 +71,9 @@ func (w *world) expected(c config) []string {
 		ok := false
 		for _, p := range c.Patterns {
 			// a pattern has as many path elements as the path it can match
-			if m, _ := filepath.Match(p, f); m {
+			// (a pattern denotes paths: its spelling — doubled slashes, "." and
+			// ".." elements — does not matter)
+			if m, _ := filepath.Match(filepath.Clean(p), f); m {
 				ok = true
 			}
 		}
@@ -103,7 +105,7 @@ func runHistory(base string, idx int, c config, hist []step) (what string, incon
 	var pats []string
 	for _, p := range c.Patterns {
 		if c.Absolute {
-			pats = append(pats, filepath.Join(root, p))
+			pats = append(pats, root+"/"+p) // not Join: keep the pattern's spelling
 		} else {
 			pats = append(pats, p)
 		}
@@ -279,7 +281,7 @@ func runHistory(base string, idx int, c config, hist []step) (what string, incon
 func TestC18(t *testing.T) {
 	r := ev.Start(t, "C18", "exploration")
 	defer r.Finish()
-	r.Rule("tree of 2 directories x 4 names (+ directories with matching names); 1-3 overlapping patterns from {d0/*.log, d0/a*, */x.log, d1/a.log, */*.log, d?/b.log}, absolute or relative (the process chdirs into the tree), optional ignore regex from {^b, \\.txt$, log}; histories over {create, delete, rename to a matching / non-matching name, mkdir with a matching name, rmdir, directory replaced by a file of the same name and back within one step}: every history of length <=2 (quick) / <=3 (thorough) over a reduced step set for three fixed configurations, plus random length-10/15 histories with random configurations. After each step + pattern poll + stream barrier a unique probe line is appended to every file; at the end every probe of a file in the model's expected set must have been delivered exactly once, every other probe never; log_count must equal the expected set's size after every step. Non-trivial: history in which the expected set changed at least twice; distinct by (config, history).")
+	r.Rule("tree of 2 directories x 4 names (+ directories with matching names); 1-3 overlapping patterns from {d0/*.log, d0/a*, */x.log, d1/a.log, */*.log, d?/b.log, and literal patterns spelled non-canonically (d1/./a.log, d0/../d1/a.log, d0//x.log) or with glob quoting (d0/b\\.log)}, absolute or relative (the process chdirs into the tree), optional ignore regex from {^b, \\.txt$, log}; histories over {create, delete, rename to a matching / non-matching name, mkdir with a matching name, rmdir, directory replaced by a file of the same name and back within one step}: every history of length <=2 (quick) / <=3 (thorough) over a reduced step set for three fixed configurations, plus random length-10/15 histories with random configurations. After each step + pattern poll + stream barrier a unique probe line is appended to every file; at the end every probe of a file in the model's expected set must have been delivered exactly once, every other probe never; log_count must equal the expected set's size after every step. Non-trivial: history in which the expected set changed at least twice; distinct by (config, history).")
 	r.Assume("reference matcher = path/filepath.Match applied to model paths (independent of Glob's filesystem walk)", "a step is followed by a stream wake so that streams on vanished paths end before the next pattern poll")
 	base, _ := os.MkdirTemp(ev.Scratch(), "c18")
 	defer os.RemoveAll(base)
@@ -292,6 +294,8 @@ func TestC18(t *testing.T) {
 		{Patterns: []string{"d0/*.log", "d0/a*"}, Absolute: true},
 		{Patterns: []string{"*/x.log", "d1/a.log", "d0/*.log"}, Absolute: false, Ignore: "^b"},
 		{Patterns: []string{"*/*.log"}, Absolute: true, Ignore: `x\.log$`},
+		// literal patterns spelled non-canonically / with glob quoting, overlapping a wildcard pattern
+		{Patterns: []string{"d0//a.log", "d0/*.log", `d0/b\.log`}, Absolute: true},
 	}
 	alpha := []step{
 		{Op: "create", Path: "d0/b.log"}, {Op: "create", Path: "d1/x.log"}, {Op: "create", Path: "d0/x.log"},
@@ -318,7 +322,7 @@ func TestC18(t *testing.T) {
 	}
 	r.Set("exhaustive_histories", len(jobs))
 	rng := ev.NewRNG(ev.Seed(), "c18")
-	allPats := []string{"d0/*.log", "d0/a*", "*/x.log", "d1/a.log", "*/*.log", "d?/b.log"}
+	allPats := []string{"d0/*.log", "d0/a*", "*/x.log", "d1/a.log", "*/*.log", "d?/b.log", "d1/./a.log", "d0/../d1/a.log", `d0/b\.log`, "d0//x.log", `d1/a\.l*`}
 	for i := 0; i < ev.Pick(120, 3000); i++ {
 		g := rng.Sub(i)
 		c := config{Absolute: g.Bool(), Ignore: ev.PickOne(g, []string{"", "", "^b", `\.txt$`, "log"})}
